@@ -439,7 +439,7 @@ pub fn check_case(c: &Case, info: &mut CaseInfo) -> Result<(), Failure> {
                 let carried = mentions_ref(da, k) || matches!(&rn, Read::Ok(cn, _) if cn == ca);
                 let carried = carried || { matches!(&rr, Some(Read::Ok(cr, _)) if cr == ca) };
                 if !carried {
-                    return Err(fail(key("required-entry-accepted"), format!("required entry refers to missing object {} but reading succeeded with {:?}", k, truncate(&format!("{:?}", ca), 200))));
+                    return Err(fail(key("required-entry-accepted"), format!("required entry refers to missing object {} but reading succeeded with {}", k, truncate(&crate::engine::val::show(ca), 200))));
                 }
                 info.label("required/carried-unresolved");
             }
@@ -474,7 +474,7 @@ pub fn check_case(c: &Case, info: &mut CaseInfo) -> Result<(), Failure> {
                 return Ok(());
             }
             if !same {
-                let (x, y) = (format!("{:?}{}", ca, da), format!("{:?}{}", cn, dn));
+                let (x, y) = (format!("{}{}", crate::engine::val::show(ca), da), format!("{}{}", crate::engine::val::show(cn), dn));
                 let at = x.bytes().zip(y.bytes()).position(|(p, q)| p != q).unwrap_or(x.len().min(y.len()));
                 let from = at.saturating_sub(60);
                 let cut = |t: &str| t.chars().skip(from).take(160).collect::<String>();
